@@ -64,13 +64,16 @@ def block(first, rest_shape, pad, call):
 
 
 # the harnesses that also run in the quick tier of C06 (no panic) and C12 (spans inside the text)
-ALSO_QUICK = {"c09_def0_sym1_n2", "c09_def0_nl_n2", "c09_def0_hash_n2", "c09_format_n2", "c09_def0_u2_n2"}
+ALSO_QUICK = {"c09_def0_sym1_n2", "c09_def0_nl_n2", "c09_def0_hash_n2", "c09_format_n2", "c09_def0_u2_n2", "c09_literal_n3_s111"}
+# the harnesses that also run in the quick tier of C11 (the column metric the formatter's source_slice relies on)
+C11_QUICK = {"c09_literal_n2", "c09_def0_hash_n2", "c09_def0_d1_n2", "c09_format_n2"}
 
 
 def header(tier, timeout, mem, fns, bound, unwind, name):
     other = "" if name in ALSO_QUICK else ":thorough"
+    c11 = "" if name in C11_QUICK else ":thorough"
     return [
-        "// @props C09 C06%s C12%s" % (other, other),
+        "// @props C09 C06%s C12%s C11%s" % (other, other, c11),
         "// @tier %s" % tier,
         "// @timeout %d" % timeout,
         "// @mem %d" % mem,
